@@ -443,12 +443,24 @@ def C_axis_diag(repo, clause):
     LAMMPS lower-triangular validation post-dominates it."""
     obs = []
     n = 0
+    # parameters that receive a cell at some call site inside the package are cells too (uc_vectors, ...)
+    cell_params = {}
+    for f2 in repo.all_fns():
+        for call_ in calls_in(f2):
+            callee_ = repo.maybe_fn(call_name(call_) or "")
+            if callee_ is None:
+                continue
+            pos_ = [p_ for p_ in callee_.params if p_ not in ("self", "cls")]
+            for i_, a_ in enumerate(call_.args):
+                if i_ < len(pos_) and _is_cell_expr(expand(f2, a_)):
+                    cell_params.setdefault(callee_.qualname, set()).add(pos_[i_])
     for fn in repo.all_fns():
         for c in calls_in(fn):
             if call_name(c) != "diag" or not c.args:
                 continue
             e = expand(fn, c.args[0])
-            if not (_is_cell_expr(c.args[0]) or _is_cell_expr(e)):
+            is_param_cell = isinstance(c.args[0], ast.Name) and c.args[0].id in cell_params.get(fn.qualname, ())
+            if not (_is_cell_expr(c.args[0]) or _is_cell_expr(e) or is_param_cell):
                 continue
             n += 1
             where = fn.qualname
@@ -534,6 +546,14 @@ def C_axis_diag(repo, clause):
                             ij = tuple(const_value(x_) for x_ in e_[0].slice.elts)
                             if None not in ij and ij[0] != ij[1]:
                                 ents.add(ij)
+                # np.tril(cell, -1) / np.triu(cell, 1) examine one triangle only
+                tri = set()
+                for t, pol, k in norm_guards(fn, c):
+                    for y in ast.walk(t):
+                        if isinstance(y, ast.Call) and call_name(y) in ("tril", "triu") and y.args:
+                            tri.add(call_name(y))
+                if len(tri) == 1 and not ents:
+                    ents = {(1, 0), (2, 0), (2, 1)} if "tril" in tri else {(0, 1), (0, 2), (1, 2)}
                 if 0 < len(ents) < 6:
                     partial = sorted(ents)
                     why = ("np.diag(cell) is used as the box under a hand-written test that only checks the off-diagonal entries %s: a cell whose OTHER off-diagonal entries are non-zero "
@@ -1320,4 +1340,72 @@ def C_wrap_modulus(repo, clause, modules=("mofun.mofun", "mofun.atoms", "mofun.d
                                                                                   c, "shifts atoms by a fraction of a lattice vector (not a lattice translation)" if c < 1 else "leaves wrapped atoms outside the unit cell")),
                           slot="wrap-modulus:%s" % fn.qualname, positive=True))
     floor("Cwrap", "constant-modulus wraps", n, 2)
+    return obs
+
+
+def C_fractional_wrap(repo, clause, modules=("mofun.mofun", "mofun.atoms")):
+    """Wrapping through fractional coordinates: with lattice vectors as the ROWS of the cell, fractional = positions . inverse(cell) (or its transpose,
+    inverse(cell.T) . positions.T) and back = fractional . cell.  The matrix chain in front of every `% 1` and of the product that restores Cartesian
+    coordinates is normalised (dot / matmul / @ / .T / inv / solve) and compared with that form."""
+    from .common import linalg_chain
+    obs = []
+    n_sites = 0
+
+    def normalise(ch, is_pos):
+        """transpose the whole product if the positions-like factor appears transposed"""
+        if ch is None:
+            return None
+        pos = [x for x in ch if is_pos(x[0])]
+        if len(pos) == 1 and pos[0][1]:
+            ch = [(n, not t, i) for (n, t, i) in reversed(ch)]
+        return ch
+
+    for fn in repo.all_fns():
+        if fn.module.name not in modules:
+            continue
+        for n in fn.own_nodes():
+            if not (isinstance(n, ast.BinOp) and isinstance(n.op, ast.Mod) and const_value(n.right) == 1):
+                continue
+            ch = linalg_chain(expand(fn, n.left))
+            if ch is None or len(ch) < 2:
+                continue
+            is_pos = lambda nm: nm.endswith("positions") or nm.endswith(".positions.T")
+            is_cell = lambda nm: nm.endswith("cell")
+            if not any(is_pos(x[0]) for x in ch) or not any(is_cell(x[0]) for x in ch):
+                continue
+            n_sites += 1
+            chn = normalise(ch, is_pos)
+            shape_ok = len(chn) == 2 and is_pos(chn[0][0]) and is_cell(chn[1][0])
+            ok = shape_ok and chn[0][1:] == (False, False) and chn[1][1:] == (False, True)
+            why = "positions . inverse(cell)" if ok else (
+                "the chain normalises to %s - %s" % (
+                    " . ".join("%s%s%s" % ("inv(" if i else "", nm + (".T" if t else ""), ")" if i else "") for nm, t, i in chn),
+                    "the inverse of the TRANSPOSED cell: that is the column-vector convention, but the lattice vectors are the ROWS of the cell, so atoms are shifted by non-lattice vectors in every sheared cell"
+                    if shape_ok and chn[1][1:] == (True, True) else ("the cell is NOT inverted" if shape_ok and not chn[1][2] else "not of the form positions . inverse(cell)")))
+            obs.append(Ob("Cfrac", clause, fn, n, ok, "fractional coordinates before `% 1` in " + fn.qualname + ": " + why, slot="cart-to-frac:%s" % fn.qualname, positive=shape_ok and not ok,
+                          undecided=not shape_ok))
+            # the way back: <fractional> . cell
+            st = fn.stmt_of(n)
+            if isinstance(st, ast.Assign) and len(st.targets) == 1 and isinstance(st.targets[0], ast.Name):
+                fv = st.targets[0].id
+                transposed_frac = bool([x for x in ch if is_pos(x[0])][0][1])
+                for b in fn.own_nodes():
+                    if isinstance(b, ast.Assign) and any(isinstance(y, ast.Name) and y.id == fv for y in ast.walk(b.value)) and b is not st:
+                        cb = linalg_chain(b.value)
+                        if cb is None or len(cb) != 2 or not any(is_cell(x[0]) for x in cb):
+                            continue
+                        # fv holds fractional ROWS if the forward product was not transposed, fractional COLUMNS otherwise
+                        is_f = lambda nm: nm == fv
+                        f_el = [x for x in cb if is_f(x[0])]
+                        if len(f_el) != 1:
+                            continue
+                        eff = [(nm, (t != transposed_frac) if is_f(nm) else t, i) for nm, t, i in cb]
+                        if [x for x in eff if is_f(x[0])][0][1]:
+                            eff = [(nm, not t, i) for (nm, t, i) in reversed(eff)]
+                        ok_b = is_f(eff[0][0]) and is_cell(eff[1][0]) and eff[1][1:] == (False, False)
+                        obs.append(Ob("Cfrac", clause, fn, b, ok_b,
+                                      "Cartesian coordinates restored as fractional . cell in %s: %s" % (fn.qualname, "yes" if ok_b else
+                                                                                                       "NO - `%s` multiplies with the transposed (or inverted) cell" % ast.unparse(b.value)[:60]),
+                                      slot="frac-to-cart:%s" % fn.qualname, positive=not ok_b))
+    floor("Cfrac", "fractional wraps through a matrix product", n_sites, 1)
     return obs
